@@ -56,6 +56,7 @@ type vWorld struct {
 	dlq     *vDest
 	procs   []*vProc
 	allowBadShapes bool
+	dlqSize, dlqTh int
 }
 
 func vPos(i int) opencdc.Position { return opencdc.Position("p" + strconv.Itoa(i)) }
@@ -346,6 +347,9 @@ func (d *vDest) Write(ctx context.Context, recs []opencdc.Record) error {
 			// C07: dead-lettered records of one source reach the DLQ in source order, once
 			i := vDLQRoot(r)
 			verifAssert(i >= 0 && i < w.N, "c07-dlq-record-carries-original")
+			// C07 window: tolerated only while the rejections among the most recent
+			// window-size outcomes, counting this one, do not exceed the threshold
+			verifAssert(w.dlqSize == 0 || w.nacksInWindow(i) <= w.dlqTh, "c07-nack-tolerated-beyond-threshold")
 			// a record already confirmed by the DLQ is never written to it again
 			// (a retry after a rejected/failed write is not a second copy)
 			verifAssert(!d.acked[k], "c07-dlq-written-twice")
@@ -419,6 +423,20 @@ func (d *vDest) Ack(ctx context.Context) ([]connector.DestinationAck, error) {
 	return acks, nil
 }
 
+func (w *vWorld) nacksInWindow(i int) int {
+	n := w.dlqSize
+	if w.dlqTh == 0 && n > 0 {
+		n = 1
+	}
+	cnt := 1
+	for j := i - 1; j >= 0 && j > i-n; j-- {
+		if w.dlq.ackedRoot(j) > 0 {
+			cnt++
+		}
+	}
+	return cnt
+}
+
 // ---- building a worker ----
 
 type vCfg struct {
@@ -435,6 +453,7 @@ type vCfg struct {
 func buildWorker(c vCfg) (*vWorld, *Worker) {
 	w := newWorld(c.N)
 	w.allowBadShapes = c.badProc
+	w.dlqSize, w.dlqTh = c.dlqSize, c.dlqTh
 	w.src = &vSource{w: w}
 	for i := 0; i < c.N; i++ {
 		w.src.recs = append(w.src.recs, vRecord(i))
